@@ -437,6 +437,29 @@ theorem dev_D24_class : ¬ PrintInjective (view gD24 .column) true := by
   have := h (.node (.col "x.a" (some q1))) (by decide) (.node (.col "x.a" (some q2))) (by decide) (by decide)
   exact absurd this (by decide)
 
+/-- the same witness end to end: the typed AST renders to the SQL text below, and the complete model run (walk →
+    statement holder → assembler → column view → export) yields a well‑formed view whose export repeats `x.a` and `x`.
+    Replayed on the real code by `harness/c18.py` (known finding D24). -/
+def witnessBranch (t : String) : Ast.Query :=
+  .select false [.mk (.col ["x"] "a") none false]
+    [.mk (.derived (.select false [.mk (.col [] "a") none false] [.mk (.table [t] none false) []] none [] none)
+      (some "x") false) []] none [] none
+
+def witnessStmt : Ast.Stmt :=
+  .insert .insertInto false ["t"] none
+    (.setop (.mk (witnessBranch "t1") false) [.mk "union all" (.mk (witnessBranch "t2") false)]) false
+
+theorem dev_D24_sql :
+    Render.stmt {} witnessStmt =
+      "insert into t select x.a from (select a from t1) x union all select x.a from (select a from t2) x" ∧
+    (match Runner.eval {} [] [witnessStmt] with
+     | .ok (G, _) =>
+       edgesWFb (view G .column) && nodupb (view G .column).nodes &&
+       ((nodeIds (view G .column) true).count "x.a" == 2) && ((nodeIds (view G .column) true).count "x" == 2) &&
+       nodupb (nodeIds (view G .table) false)
+     | .error _ => false) = true := by
+  decide +kernel
+
 /-- second shape of the class: a column whose owner is ambiguous prints bare, so it collides with an OWNER of that name:
     `insert into t select x from (select a as x from t1) x join (select b from t2) y on …` has the unresolved column `x`
     and the subquery `x` -/
